@@ -29,7 +29,9 @@ KROME_WINDOW_TEXT = [
 # the limit is honoured -- never dropped
 KROME_EXOTIC_TEXT = [("5.5D3", 5500.0), (".le.3d2", 300.0), (">=10", 10.0), ("1.16D3", 1160.0), (".GE.2.5D1", 25.0)]
 WINDOWS = [(-1.0, -1.0), (0.0, 0.0), (10.0, -1.0), (-1.0, 300.0), (10.0, 300.0), (300.0, 1000.0), (1000.0, 41000.0), (5.0, 10.0),
-           (0.0, 50.0), (20.0, 0.0), (11604.52, 157821.3), (1234.56, 1234567.25)]
+           (0.0, 50.0), (20.0, 0.0), (11604.52, 157821.3), (1234.56, 1234567.25),
+           # the values data files use BY CONVENTION for "range unknown" are bounds like any other: only <= 0 means unbounded
+           (-9999.0, 9999.0), (300.0, 9999.0), (9999.0, 41000.0), (10.0, 10000.0), (10.0, 99999.0), (-9999.0, 300.0)]
 
 
 def gen_case(rng: random.Random, k: int) -> dict:
@@ -57,7 +59,7 @@ def gen_case(rng: random.Random, k: int) -> dict:
             recs.append(rec)
         if piece and recs:          # adjacent piecewise fits of the first reaction, all under ONE index (as KIDA/UMIST files do)
             r0 = recs[0]
-            cuts = sorted(rng.sample([10.0, 50.0, 300.0, 1000.0, 41000.0], rng.choice([3, 4])))
+            cuts = sorted(rng.sample([10.0, 50.0, 300.0, 1000.0, 9999.0, 41000.0], rng.choice([3, 4])))
             recs = [dict(r0, tmin=a, tmax=b, a=r0["a"] * (q + 1)) for q, (a, b) in enumerate(zip(cuts, cuts[1:]))] + recs[1:]
         # KROME: the column order is the file's own (@format); the limits may come before or AFTER the rate column
         kcols = rng.choice(["idx,R,R,R,P,P,P,P,P,Tmin,Tmax,rate", "idx,R,R,R,P,P,P,P,P,Tmin,Tmax,rate", "idx,R,R,R,P,P,P,P,P,rate,Tmin,Tmax",
